@@ -5,7 +5,8 @@ import bisect, glob, hashlib, json, logging, math, os, shutil, struct, warnings
 CLAIM = {
  'text': ('Lean 4 theorems decide the frame-selection arithmetic of the three converters for every n, start, stop, step>=1 '
           'and sample size (rp66_rows_eq_python, rp66_well_section_describes_rows, conv_rows_mem_iff, '
-          'conv_rows_subset_python, conv_rows_correct_iff, conv_rows_drops_exactly_last, conv_rows_sample): RP66V1 writes exactly the rows Python slicing '
+          'conv_rows_subset_python, conv_rows_correct_iff, conv_rows_drops_exactly_last, conv_rows_sample; for negative steps '
+          'rp66_rows_eq_python_neg, rp66_well_section_describes_rows_neg, conv_rows_neg_unfold, lis_neg_step_outcome): RP66V1 writes exactly the rows Python slicing '
           'selects; LIS/BIT write xs[first:last+1:step], which is exactly that selection iff it is empty or '
           'stop mod step <= start mod step, and otherwise lacks only the last selected frame. The end-to-end pipeline '
           '(file -> reader -> selection -> LAS text -> LASRead) is exercised: real single_*_to_las on the example files, '
@@ -23,7 +24,7 @@ CLAIM = {
 RULE = ('sources: every example file of the three formats, truncations of them at record boundaries taken from the '
         'repository index, LIS files with several log passes spliced from the examples, generated BIT files (own encoder), generated '
         'RP66V1 files (C04 spec encoder: several frame types, multi-dimensional and integer channels); per source random (selector, channel subset, reduction, width, '
-        'decimal format) with steps 1/2/3/large, negative / out-of-range / None bounds, sample sizes below/equal/above n, '
+        'decimal format) with steps 1/2/3/large and negative steps, negative / out-of-range / None bounds, sample sizes below/equal/above n, '
         'plus an exhaustive slice scope on a tiny generated BIT file. A case is non-trivial when at least 2 and fewer than '
         'n rows are selected or a non-empty channel subset is given; distinct by (family, source, pass length, selected rows, '
         'columns, reduction, width, format).')
@@ -48,6 +49,8 @@ F_LISW = 'F11-lis-well-section-whole-pass'
 F_STRP = 'F11-bit-strp'
 F_F7 = 'F7-lis-indirect-x-stepped'
 F_LIS1 = 'C11-lis-single-record-stop-step-zero'
+F_NEGBIT = 'C11-bit-negative-step-rows-lost'
+F_NEGLIS = 'C11-lis-negative-step-unsupported'
 # residual classes of the F19 repair (reachable since /repo commit 'fix: LIS to LAS with a channel subset raised TypeError')
 F_LISX0 = 'C11-lis-subset-without-known-channel-x-garbage'
 F_LISSUB = 'C11-lis-subset-subchannel-granularity'
@@ -538,11 +541,47 @@ def py_rows(sel, n):
 
 
 def drop_class(sel, n):
-    """Class predicate of F11 (theorem conv_rows_correct_iff): normalised start < stop and stop mod step > start mod step."""
+    """Class predicate of F11 (theorem conv_rows_correct_iff): positive step, normalised start < stop and
+    stop mod step > start mod step."""
     if sel[0] != 'slice':
         return False
     s, e, st = slice(sel[1], sel[2], sel[3]).indices(n)
-    return s < e and (e % st) > (s % st)
+    return st > 0 and s < e and (e % st) > (s % st)
+
+
+def sliced_bounds(sel, n):
+    """(first, last + 1, step) the LIS / BIT converters slice with: the clamped stop replaced by step * floor(stop / step)
+    (theorems conv_rows_mem_iff, conv_rows_neg_unfold; `Slice.last` as pinned by test_slice_last)."""
+    s, e, st = slice(sel[1], sel[2], sel[3]).indices(n)
+    return s, (n if n < e else st * (e // st)), st
+
+
+def bit_sliced_rows(sel, n):
+    """rows of `array[first : last+1 : step]` (negative bounds wrap, as numpy does) - class predicate of the BIT findings"""
+    s, b, st = sliced_bounds(sel, n)
+    return list(range(n))[s:b:st]
+
+
+def lis_frame_range(sel, n):
+    """`range(first, last+1, step)` (no wrapping), the frames LIS FrameSet is sized for - class predicate of the LIS finding"""
+    s, b, st = sliced_bounds(sel, n)
+    return list(range(s, b, st))
+
+
+def lis_shares_record(p, frames):
+    """some data record holds two of the frames (then `_sliceFromList` builds a slice with a negative step and the plan raises)"""
+    recs = [p.rec_of[j][0] for j in frames]
+    return len(set(recs)) < len(recs)
+
+
+def lis_fpr(p):
+    """frames per data record, in file order (from the repository index)"""
+    out, last = [], None
+    for rec, _off in p.rec_of:
+        if rec != last:
+            out.append(0); last = rec
+        out[-1] += 1
+    return out
 
 
 def reduce_ref(np, col, red):
@@ -651,16 +690,21 @@ def evaluate_case(env, case, truth, res, outs, outdir, v):
     passes, stubs, extra = truth
     # ---- which pass is predicted to abort the conversion by a listed defect class
     abort_at, abort_finding = None, None
+    neg = sel[0] == 'slice' and sel[3] is not None and sel[3] < 0
     for k, p in enumerate(passes):
-        if fam == 'BIT' and p.cols and drop_class(sel, p.n) and len(py_rows(sel, p.n)) == 1:
-            abort_at, abort_finding = k, F_BIT1; break
+        if fam == 'BIT' and sel[0] == 'slice' and p.cols and py_rows(sel, p.n) and not bit_sliced_rows(sel, p.n):
+            # count() >= 1 but the sliced arrays are empty: IndexError
+            abort_at, abort_finding = k, (F_NEGBIT if neg else F_BIT1); break
+        if fam == 'LIS' and neg and py_rows(sel, p.n) and lis_shares_record(p, lis_frame_range(sel, p.n)):
+            abort_at, abort_finding = k, F_NEGLIS; break      # two selected frames in one record with a step < 1: the plan raises
     if res.ignored:
         v.fail(f'source file not recognised as {fam}: reported type "{res.binary_file_type}"'); return
     if res.exception:
         if abort_at is None:
             v.fail('conversion reported an exception (file failed) outside every listed class'); return
         v.fail(f'conversion fails with an exception at log pass {abort_at}: {abort_finding}', abort_finding)
-        if fam != 'BIT':
+        v.seen.append((passes[abort_at], 'indexerror' if fam == 'BIT' else 'planerror', None))
+        if fam == 'RP66V1':
             return
         n_eval = abort_at
     else:
@@ -691,8 +735,6 @@ def evaluate_case(env, case, truth, res, outs, outdir, v):
         obs, widx = evaluate_pass(env, case, p, os.path.join(outdir, f), v)
         if obs is not None and -1 not in obs:
             v.seen.append((p, obs, widx))
-    if res.exception and fam == 'BIT' and abort_at is not None:
-        v.seen.append((passes[abort_at], [], None))        # the pass that raised wrote no row
 
 
 def evaluate_pass(env, case, p, las_path, v):
@@ -740,6 +782,9 @@ def evaluate_pass(env, case, p, las_path, v):
         # the claim under test for each row; for a LIS/BIT sample (only its shape is demanded) the regular stride is used
         # merely to break ties between frames that carry identical values
         hint = want_rows if want_rows is not None else (lis_rows_written(sel, n) if fam in ('LIS', 'BIT') else None)
+        if fam == 'LIS' and want_rows is not None and sel[3] is not None and sel[3] < 0 and want_rows != lis_rows_written(sel, n) \
+                and len(lis_rows_written(sel, n)) == rows:
+            hint = lis_rows_written(sel, n)      # test the class of the negative-step finding first (frames may carry equal values)
         xsrc = p.cols[0][:, 0].astype(np.float64)
         oks, okx = [], []       # per row: frames matching on every column but an implied X / frames matching on the implied X
         for r in range(rows):
@@ -794,8 +839,14 @@ def evaluate_pass(env, case, p, las_path, v):
         return obs, None
     if want_rows is not None:
         if obs != want_rows:
+            negstep = sel[3] is not None and sel[3] < 0
             if in_drop and obs == want_rows[:-1]:
                 v.fail(f'{tag}: last selected frame {want_rows[-1]} missing (rows {_short(obs)} of {_short(want_rows)})', F_DROP)
+            elif negstep and fam == 'BIT' and obs == bit_sliced_rows(sel, n):
+                v.fail(f'{tag}: negative step: rows {_short(obs)} written of the selected {_short(want_rows)}', F_NEGBIT)
+            elif negstep and fam == 'LIS' and obs == sorted(lis_frame_range(sel, n)) and not lis_shares_record(p, obs):
+                v.fail(f'{tag}: negative step: rows {_short(obs)} written (ascending) of the selected {_short(want_rows)}', F_NEGLIS)
+                return obs, None           # order / X / well section of such a file are not examined further
             else:
                 v.fail(f'{tag}: rows written {_short(obs)} != frames selected by Python slicing {_short(want_rows)}')
                 return obs, None
@@ -833,6 +884,9 @@ def _short(l):
 def lis_rows_written(sel, n):
     """rows the LIS converter writes (for the class predicate of the run-together defect only)"""
     if sel[0] == 'slice':
+        if sel[3] is not None and sel[3] < 0:
+            # negative step (finding C11-lis-negative-step-unsupported): ascending, when anything is written at all
+            return sorted(lis_frame_range(sel, n))
         rows = py_rows(sel, n)
         return rows[:-1] if drop_class(sel, n) else rows
     N = sel[1]
@@ -915,6 +969,15 @@ def random_selector(rng, n):
         if q < 0.8: return rng.randint(n, n + 50)
         if q < 0.9: return rng.choice([0, n, n - 1, -n, -n - 1, 1])
         return rng.randint(-2 * n - 5, 2 * n + 5)
+    if r < 0.38:
+        # negative steps are Python slices too: rows in reverse order
+        st = -rng.choice([1, 1, 2, 2, 3, 7, max(1, n // 2), n + 1, rng.randint(1, 40)])
+        a = rng.choice([None, None, rng.randint(0, max(0, n - 1)), rng.randint(0, max(0, n - 1)), rng.randint(-n - 3, n + 3), -1, n + 5, -n - 10])
+        lo = a if isinstance(a, int) and 0 <= a < n else n - 1
+        b = rng.choice([None, None, rng.randint(-1, max(0, n - 1)), rng.randint(-n - 3, n + 3), 0, max(-1, lo - rng.randint(0, 30) * (-st)), -n - 1])
+        if b == -1 and rng.random() < 0.5:
+            b = None                     # a literal -1 is "the last element"; None is "down to the first"
+        return ['slice', a, b, st]
     step = rng.choice([None, 1, 1, 2, 2, 3, 3, 4, 5, 7, max(1, n // 2), max(1, n - 1), n + 1, rng.randint(1, max(1, n)), rng.randint(1, 40)])
     a, b = bound(), bound()
     if rng.random() < 0.5 and n > 30:
@@ -955,8 +1018,12 @@ def random_case(rng, fam, spec, truth):
 
 # ------------------------------------------------------------------ the model side
 
-def model_request(fam, sel, n):
-    op = ('rp66_' if fam == 'RP66V1' else 'conv_') + sel[0]
+def model_request(fam, sel, n, p=None):
+    if fam == 'LIS' and sel[0] == 'slice':
+        o = lambda x: 'N' if x is None else str(x)
+        fpr = ','.join(map(str, lis_fpr(p))) if (p is not None and p.rec_of) else '-'
+        return f'lis_slice {o(sel[1])} {o(sel[2])} {o(sel[3])} {n} {fpr}'
+    op = {'RP66V1': 'rp66_', 'LIS': 'lis_' if sel[0] == 'slice' else 'conv_', 'BIT': 'bit_' if sel[0] == 'slice' else 'conv_'}[fam] + sel[0]
     if sel[0] == 'slice':
         o = lambda x: 'N' if x is None else str(x)
         return f'{op} {o(sel[1])} {o(sel[2])} {o(sel[3])} {n}'
@@ -965,7 +1032,7 @@ def model_request(fam, sel, n):
 
 def parse_model(reply):
     """'ok rows=1,2 strt=0 stop=2' -> (rows, strt, stop)"""
-    if not reply.startswith('ok '):
+    if not reply.startswith('ok ') or '=' not in reply:
         return None, None, None
     kv = dict(t.split('=', 1) for t in reply[3:].split(' '))
     rows = [] if kv['rows'] == '-' else [int(t) for t in kv['rows'].split(',')]
@@ -1037,15 +1104,15 @@ def run_cases(ctx, env, cases, truths, record=True, jobs=None):
                 ctx.nontriv(k)
         for pi, obs, widx in seen:
             p = truth[0][pi]
-            impl = 'rows=' + ','.join(map(str, obs))
+            impl = ('ok ' + obs) if isinstance(obs, str) else 'rows=' + ','.join(map(str, obs))
             xinfo = (p.cols[0][:, 0], widx) if (case['fam'] == 'RP66V1' and obs and widx is not None) else None
-            pending.append((case, model_request(case['fam'], case['sel'], p.n), impl, xinfo))
+            pending.append((case, model_request(case['fam'], case['sel'], p.n, p), impl, xinfo))
     # one model call for the whole batch
     if pending and getattr(ctx, 'model_available', True):
         replies = ctx.lean([q for _c, q, _i, _x in pending])
         for (case, q, impl, xinfo), rep in zip(pending, replies):
             rows, strt, stop = parse_model(rep)
-            model = 'rows=' + (','.join(map(str, rows)) if rows is not None else rep)
+            model = ('rows=' + ','.join(map(str, rows))) if rows is not None else rep
             if xinfo is not None and rows:
                 xs, (si, ti) = xinfo
                 model += f' strt={nearest_index(xs, float(xs[strt]))} stop={nearest_index(xs, float(xs[stop]))}'
@@ -1100,7 +1167,8 @@ def _run(ctx):
             for _ in range(k):
                 cases.append(random_case(rng, fam, spec, truth))
             # directed: the whole file, the defect witnesses, and an empty selection
-            for sel in (['slice', None, None, None], ['slice', 4, 5, 6], ['slice', None, None, 3], ['slice', 5, 5, 1], ['sample', 7]):
+            for sel in (['slice', None, None, None], ['slice', 4, 5, 6], ['slice', None, None, 3], ['slice', 5, 5, 1], ['sample', 7],
+                        ['slice', 40, 10, -2], ['slice', 25, None, -1], ['slice', None, None, -3], ['slice', -100000, None, -2]):
                 directed.append({'fam': fam, 'src': spec, 'sel': sel, 'chans': [], 'red': 'first', 'w': 16, 'ff': '.3f'})
     cases = directed + cases
     # exhaustive slice scope on a tiny generated BIT file (one pass)
@@ -1113,13 +1181,13 @@ def _run(ctx):
     ex = 0
     for a in vals:
         for b in vals:
-            for c in [None] + list(range(1, n + 2)):
+            for c in [None] + list(range(1, n + 2)) + list(range(-(n + 1), 0)):
                 cases.append({'fam': 'BIT', 'src': tiny, 'sel': ['slice', a, b, c], 'chans': [], 'red': 'first', 'w': 12, 'ff': '.4f'})
                 ex += 1
     for N in range(1, n + 3):
         cases.append({'fam': 'BIT', 'src': tiny, 'sel': ['sample', N], 'chans': [], 'red': 'first', 'w': 12, 'ff': '.4f'})
     ctx.extra['exhaustive'] = True
-    ctx.extra['exhaustive_scope'] = f'BIT, generated file with one pass of n={n} frames: every slice with start/stop in -{n+1}..{n+1} or None, step 1..{n+1} or None ({ex} conversions), every sample size 1..{n+2}'
+    ctx.extra['exhaustive_scope'] = f'BIT, generated file with one pass of n={n} frames: every slice with start/stop in -{n+1}..{n+1} or None, step 1..{n+1}, -{n+1}..-1 or None ({ex} conversions), every sample size 1..{n+2}'
     run_cases(ctx, env, cases, truths)
     for c in cases[:3] + cases[len(cases) // 3: len(cases) // 3 + 2]:
         ctx.sample({k: (v if k != 'src' else {kk: vv for kk, vv in v.items() if kk not in ('desc', 'req')}) for k, v in c.items()})
